@@ -115,6 +115,47 @@ def _sqlval(I, v):
     return lib.to_real(I, v, 'sql')
 
 
+class MaxQuery(Native):
+    """session.query(func.max(col)).one() -> (max or NULL,)"""
+
+    def __init__(self, table, col):
+        self.table = table
+        self.col = col
+
+    def getattr(self, I, name):
+        if name == 'one':
+            return BoundMethod(self, _MaxOne())
+        raise Undecided('Query.%s on an aggregate' % name)
+
+
+class _MaxOne(Native):
+    def call(self, I, args, kwargs):
+        q = args[0]
+        gt = I.db.tables[q.table.name]
+        ks = sort_of(gt.kty)
+        k = z3.Const('k!max.' + gt.name, ks)
+        val = lambda x: gt.col(q.col, x)[0]
+        # one (max, empty) pair per table state: asking again in the same
+        # state gives the same answer
+        ckey = ('orm.max', gt.name, q.col, gt.exists.get_id(),
+                val(k).get_id())
+        if ckey not in I.ghost:
+            m = z3.Int(I.ex.fresh_name('max.' + q.col))
+            e = z3.Bool(I.ex.fresh_name('max.empty'))
+            w = z3.Const(I.ex.fresh_name('w.max'), ks)
+            I.ex.hyp(z3.Implies(e, ops.forall(
+                [k], z3.Not(z3.Select(gt.exists, k)),
+                patterns=[z3.Select(gt.exists, k)])))
+            I.ex.assume(z3.Implies(z3.Not(e), z3.And(
+                z3.Select(gt.exists, w), val(w) == m)))
+            I.ex.hyp(z3.Implies(z3.Not(e), ops.forall(
+                [k], z3.Implies(z3.Select(gt.exists, k), val(k) <= m),
+                patterns=[z3.Select(gt.exists, k)])))
+            I.ghost[ckey] = (m, e)
+        m, e = I.ghost[ckey]
+        return (Sym(m, 'int', e),)
+
+
 class Row(Native):
     """a persistent ORM instance: one row of a ghost table, by key"""
 
@@ -122,10 +163,18 @@ class Row(Native):
         self.table = table
         self.key = key
 
+    def getitem(self, I, key):
+        return self.getattr(I, key)
+
     def getattr(self, I, name):
         if name == 'update':
             return BoundMethod(self, _RowUpdate())
+        if name == 'save':
+            return BoundMethod(self, _RowSave())
         gt = I.db.tables[self.table.name]
+        if name in ('created_at', 'updated_at'):
+            # timestamps are not part of the ghost tables
+            return I.fresh(name, 'str', True)
         if name in gt.cols or name in gt.keycols:
             t, nf = gt.col(name, self.key)
             ty = gt.cols[name][0] if name in gt.cols else 'int'
@@ -147,6 +196,39 @@ class Row(Native):
         I.db.execute(stmt, _binds(I))
 
 
+class _RowSave(Native):
+    """oslo.db ModelBase.save(session): add + flush.  Changes to a row are
+    applied as they are made; a changed UNIQUE column may collide here."""
+
+    def call(self, I, args, kwargs):
+        row = args[0]
+        target = row.row if isinstance(row, Pending) else row
+        if target is None:
+            session_hook(I, 'add', [row], {})
+            session_hook(I, 'flush', [], {})
+            return None
+        gt = I.db.tables[target.table.name]
+        if gt.name in I.registry.get('unique_checks', ()):
+            for cn in getattr(target, 'touched_unique', ()):
+                if I.ex.branch(z3.Bool(I.ex.fresh_name('dup.' + cn))):
+                    from oslo_db import exception as db_exc
+                    from pyvc.values import VList
+                    I.raise_(db_exc.DBDuplicateEntry, columns=VList([cn]))
+        return None
+
+
+def _note_unique(target, names):
+    import sqlalchemy as _sa
+    cols = set()
+    for c in target.table.constraints:
+        if isinstance(c, _sa.UniqueConstraint) and len(c.columns) == 1:
+            cols.add(list(c.columns)[0].name)
+    hit = [n for n in names if n in cols]
+    if hit:
+        target.touched_unique = tuple(getattr(target, 'touched_unique', ())) \
+            + tuple(hit)
+
+
 class _RowUpdate(Native):
     """oslo.db ModelBase.update: setattr for every item"""
 
@@ -161,6 +243,7 @@ class _RowUpdate(Native):
         if not vals.items:
             return None
         _writer(I, target.table.name)
+        _note_unique(target, list(vals.items))
         gt = I.db.tables[target.table.name]
         stmt = target.table.update().where(
             target.table.c[gt.keycols[0]] ==
@@ -180,9 +263,14 @@ class Pending(Native):
         self.row = None
         self.added = False
 
+    def getitem(self, I, key):
+        return self.getattr(I, key)
+
     def getattr(self, I, name):
         if name == 'update':
             return BoundMethod(self, _RowUpdate())
+        if name == 'save':
+            return BoundMethod(self, _RowSave())
         if self.row is not None:
             return self.row.getattr(I, name)
         if name in self.values:
@@ -201,6 +289,11 @@ def session_hook(I, name, args, kwargs):
         model = args[0]
         tbl = getattr(model, '__table__', None)
         if tbl is None:
+            from sqlalchemy.sql import functions as sa_fn
+            if isinstance(model, sa_fn.FunctionElement) and \
+                    model.name.lower() == 'max' and len(list(model.clauses)) == 1:
+                col = list(model.clauses)[0]
+                return MaxQuery(col.table, col.name)
             raise Undecided('session.query(%r)' % (model,))
         return Query(tbl)
     pend = I.ghost.setdefault('orm.pending', [])
@@ -222,8 +315,14 @@ def session_hook(I, name, args, kwargs):
     raise Undecided('session.%s' % name)
 
 
+def before_commit(I, t):
+    if I.ghost.get('orm.pending'):
+        session_hook(I, 'flush', [], {})
+
+
 def install(reg, models_module):
     reg['orm'] = session_hook
+    reg['before_commit'] = before_commit
     for name in dir(models_module):
         m = getattr(models_module, name)
         if isinstance(m, type) and hasattr(m, '__table__'):
